@@ -74,6 +74,28 @@ MUTANTS = [
     ("C32", "unified_planning/engines/factory.py",
      "            if optimality_guarantee is not None and not EngineClass.satisfies(\n                optimality_guarantee\n            ):\n                return False\n        elif operation_mode == OperationMode.PLAN_VALIDATOR:",
      "            pass\n        elif operation_mode == OperationMode.PLAN_VALIDATOR:", "_engine_satisfies_conditions"),
+    ("C15", "unified_planning/model/walkers/type_checker.py",
+     "                products = (lower * l, lower * u, upper * l, upper * u)\n                lower = min(products)\n                upper = max(products)",
+     "                lower_old = lower\n                lower = min(lower * l, lower * u, upper * l, upper * u)\n                upper = max(lower * l, lower * u, upper * l, upper * u)", "walk_times"),
+    ("C15", "unified_planning/model/walkers/type_checker.py",
+     "                upper += x.upper_bound", "                upper += x.lower_bound", "walk_plus"),
+    ("C15", "unified_planning/model/walkers/type_checker.py",
+     "        lower = left_lower - right_upper", "        lower = left_lower - right_lower", "walk_minus"),
+    ("C15", "unified_planning/model/walkers/type_checker.py",
+     "        if lower == -float(\"inf\") or (\n            lower is not None and math.isnan(cast(float, lower))\n        ):\n            lower = None",
+     "        if lower == -float(\"inf\"):\n            lower = None", "walk_times"),
+    ("C15", "unified_planning/model/walkers/type_checker.py",
+     "quotients.append(float(\"inf\") * sign * (1 if right_value > 0 else -1))", "quotients.append(float(\"inf\") * sign)", "walk_div"),
+    ("C15", "unified_planning/model/walkers/type_checker.py",
+     "            if x.lower_bound is None:\n                lower = -float(\"inf\")\n            elif lower is None:",
+     "            if lower is None:\n                lower = x.lower_bound if x.lower_bound is not None else -float(\"inf\")\n            elif x.lower_bound is None:\n                pass\n            elif False:", "walk_plus"),
+    ("C15", "unified_planning/model/walkers/type_checker.py",
+     "            if family(x) != family(t):\n                return None", "            if family(x) != family(t) and not t.is_user_type():\n                return None", "symmetric"),
+    ("C15", "unified_planning/model/walkers/type_checker.py",
+     "            if x is None or x != BOOL:\n                return None", "            if x is None:\n                return None", "walk_bool_to_bool"),
+    ("C15", "unified_planning/model/walkers/type_checker.py",
+     "        return self.environment.type_manager.IntType(\n            expression.constant_value(), expression.constant_value()\n        )",
+     "        return self.environment.type_manager.IntType(\n            expression.constant_value(), None\n        )", "walk_identity_int"),
     ("C11", "unified_planning/model/walkers/simplifier.py",
      "            return self.manager.Bool(not l)", "            return self.manager.Bool(l)", "walk_not"),
 ]
